@@ -635,6 +635,15 @@ package cl
 //@   requires sane-position: abs(c.argPos) < 1000000000
 //@   on-store stop up-and-out-only-without-arguments: len(c.args) <= c.argPos
 
+// ~? processes its control string on the argument list given as the next argument,
+// ~@? on the arguments of the enclosing format, at the position they have reached,
+// and hands the position back: absolute and backward moves (~n@* ~:*) inside the
+// sub-control see the same arguments as outside.
+//@ func cl.(*control).dirProc
+//@   property C15
+//@   on-call process shares-the-arguments-with-at: at ==> (idof(c2.args) == idof(c.args) && offof(c2.args) == offof(c.args) && len(c2.args) == len(c.args) && c2.argPos == c.argPos)
+//@   on-call process own-list-starts-at-zero: !at ==> c2.argPos == 0
+
 // ~[ consumes an argument only when it has no prefix parameter (or a : / @ modifier).
 //@ func cl.(*control).dirCond
 //@   property C15
